@@ -124,6 +124,13 @@ def corrupt_all(ctx, c):
         for n in names:
             d.ds[n] = (("time", "x"), d.ds[n].values.T.copy())
     one(ctx, c, "transposed", "pos", "intensities stored as (time, x)", transpose)
+    # a mixed layout: one array (or every array but one) stored as (time, x), the others as (x, time)
+    subsets = [[n] for n in names] + ([[m for m in names if m != n] for n in names] if len(names) > 2 else [])
+    for sub in subsets:
+        def transpose_some(d, sub=sub):
+            for n in sub:
+                d.ds[n] = (("time", "x"), d.ds[n].values.T.copy())
+        one(ctx, c, "transposed", "pos", f"{'+'.join(sub)} stored as (time, x), the other intensities as (x, time)", transpose_some)
     one(ctx, c, "bad_method", "pos", "method='nonsense'", kw={"method": "nonsense"})
     one(ctx, c, "bad_solver", "pos", "solver='nonsense'", kw={"solver": "nonsense"})
     if c.double:
